@@ -3,6 +3,7 @@
 //   - before every statement of every function body a call verifYieldPoint() is
 //     inserted, so that the seeded scheduler can pre-empt a task between any two
 //     statements (also inside code that a change under test has just added);
+//
 //   - before every X.Lock() / X.RLock() statement that is not already announced by a
 //     verifPoint(...) line, a call verifAutoLock(tryLock, unlock) is inserted, so that a
 //     task which would block on a lock the scheduler does not know about parks instead.
